@@ -8,7 +8,7 @@ MUTANTS = ["additiveRightAssoc", "andBindsLooserThanOr", "typeOpBelowEquality", 
 def run(ctx):
     binary = D.build_harness(ctx, "c11")
     thorough = ctx.tier == "thorough"
-    params = {"ObsFile": "", "Seed": ctx.seed % 1000, "PerShape": 6 if thorough else 1, "MaxSimDepth": 6, "MinEmitDepth": 4}
+    params = {"ObsFile": "", "Seed": ctx.seed % 1000, "PerShape": 8 if thorough else 1, "MaxSimDepth": 6, "MinEmitDepth": 4}
     D.stage_spec(ctx, params=params)
     if getattr(ctx, "replay", None):
         cases = [replay_case(ctx.replay)]
@@ -67,7 +67,7 @@ def generate(ctx, thorough):
     if len(recs) < 1500:
         raise D.Inconclusive("generator emitted only %d cases" % len(recs))
     if thorough:
-        sim = D.run_tlc(ctx, "C11_MC", "C11_sim.cfg", simulate="num=800", depth=12, tag="sim")
+        sim = D.run_tlc(ctx, "C11_MC", "C11_sim.cfg", simulate="num=2500", depth=12, tag="sim")
         if sim.violated:
             raise D.Inconclusive("simulation violates the specification's own laws: %s" % sim.violated)
         if len(sim.records) < 2000:
